@@ -4,20 +4,24 @@
 use super::common::*;
 use super::ugen::{self, Req};
 use crate::infra::{guarded, hash64, Ctx, PropDef, ShardOut};
+use crate::reference::sparql_ast::{Update, T};
 use crate::reference::sparql_eval::Dataset;
 use crate::reference::update::{self, Effect};
+use kolibrie::execute_query::execute_query_rayon_parallel2_volcano;
 use kolibrie::sparql_database::SparqlDatabase;
 use serde_json::{json, Value};
-use std::collections::{BTreeSet, HashSet, VecDeque};
+use std::collections::{BTreeSet, HashMap, VecDeque};
 
 pub const DEF: PropDef = PropDef {
     id: "C03",
     level: "model_checking",
-    rule: "states = abstract datasets (quads up to blank-node renaming + graph catalog) reached from 3 initial datasets by sequences of requests from a 36-request alphabet (the six update forms over default and named graphs, self-referential and swapping templates, graph-variable templates, WHERE with FILTER/UNION/VALUES, blank-node templates (also over WHERE multisets with identical solutions), unbound and literal-subject template variables, and 11 malformed/rejected requests) executed through SparqlDatabase::execute_update; every transition replays the op prefix on a fresh database and compares, after the last step, all quads of all graphs (up to blank-node renaming), the catalog bounds, the UpdateSummary counts and acceptance/rejection with the R-update reference; a rejected request must leave quads and catalog untouched. BFS per (initial dataset, first op) subtree with de-duplication on the abstract state; distinct non-trivial = distinct reached states holding >=2 quads.",
+    rule: "states = abstract datasets (quads up to blank-node renaming + graph catalog) reached from 3 initial datasets by sequences of requests from a 48-request alphabet executed through SparqlDatabase::execute_update. CORE alphabet (36): the six update forms over default and named graphs, self-referential and swapping templates, graph-variable templates, WHERE with FILTER/UNION/VALUES, blank-node templates (also over WHERE multisets with identical solutions), unbound and literal-subject template variables, and 11 malformed/rejected requests. EXTENSION symbols (12): a template variable in predicate position (IRI legal; literal / blank node = illegal triple, skipped), a template graph variable bound from a non-graph position (creates new graphs; literal / blank node skipped), one request with an unbound variable in every template position of DELETE and INSERT (never a wildcard), blank nodes in INSERT DATA, multi-quad / mixed-graph / graph-variable DELETE WHERE shorthands, a blank node in DELETE WHERE (rejected), two hand-written requests with PREFIX prologue, prefixed names and ';' abbreviation, and a variable GRAPH name in INSERT DATA / DELETE DATA (rejected). Every transition replays the op prefix on a fresh database and compares, after the last step, all quads of all graphs (up to blank-node renaming), the catalog bounds, the UpdateSummary counts and acceptance/rejection with the R-update reference; a rejected request must leave quads and catalog untouched. BFS per (initial dataset, first op) subtree with de-duplication on the abstract state; core-only paths to depth 4 (thorough 6); every extension symbol additionally as the LAST step after every core-only path of length <= 3 (thorough 4); paths with an extension symbol before their last step to depth 3 (thorough 4). Family alt_entry: every path of length <= 2 (thorough 3) additionally executes its LAST request through SparqlDatabase::handle_update, the HTTP update routes (POST application/sparql-update and form-encoded update=) and the legacy execute_query_rayon_parallel2_volcano, same oracle (counts where the entry point reports them; 'Update Failed' => dataset unchanged; no verdict on acceptance of requests the reference rejects, because these adapters accept the legacy aliases by design). Family bnode_collision: the process-global blank-node counter is read by a probe request, the initial dataset is pre-loaded with blank nodes carrying exactly the labels the next 1..5 allocations would produce (every non-empty subset of the 5 offsets), then each blank-node request is applied once and twice; the isomorphism oracle demands that every template blank node is distinct from every node already stored. Distinct non-trivial = distinct reached states holding >=2 quads.",
     assumptions: &[
-        "alphabet of 36 requests over U (harness/src/props/ugen.rs); depth 4 quick, 6 thorough",
-        "de-duplication on the abstract dataset (quads + catalog): sound for this check because it compares the complete physical content through all_quads after every step; index-level divergence is C04's subject",
+        "alphabet of 48 requests over U (harness/src/props/ugen.rs): 36 core + 12 extension; core-only paths to depth 4 quick / 6 thorough, an extension symbol as last step to depth 4 / 5, extension symbols anywhere to depth 3 / 4",
+        "de-duplication on the abstract dataset (quads + catalog): sound for this check because it compares the complete physical content through all_quads after every step; index-level divergence is C04's subject; a state first reached through a (depth-limited) extension path is expanded again when a core-only path reaches it",
         "catalog: SPARQL Update leaves the fate of emptied graphs open, so Kolibrie's catalog is only required to contain every graph holding a quad and nothing never named",
+        "requests that the SPARQL grammar allows and that have no effect (empty request, literal written as template subject, SELECT) may be refused or accepted as no-ops",
+        "bnode_collision: the probe only AIMS the pre-loaded labels (it reads the label format _:kolibrie-update-<n>-<label>); the verdict never depends on the format. If the probe cannot read a counter the family is reported as capped, not as passed",
         "reference R-update (harness/src/reference/update.rs), self-tested",
     ],
     run,
@@ -96,38 +100,134 @@ pub struct StepFail {
     pub detail: String,
 }
 
+/// Entry point through which the LAST request of a path is executed (the prefix always goes
+/// through `SparqlDatabase::execute_update`).
+#[derive(Clone, Copy, PartialEq, Eq, Debug)]
+pub enum Entry {
+    ExecuteUpdate,
+    HandleUpdate,
+    HttpSparqlUpdate,
+    HttpFormUpdate,
+    LegacyVolcano,
+}
+
+pub const ALT_ENTRIES: [Entry; 4] = [Entry::HandleUpdate, Entry::HttpSparqlUpdate, Entry::HttpFormUpdate, Entry::LegacyVolcano];
+
+impl Entry {
+    pub fn name(&self) -> &'static str {
+        match self {
+            Entry::ExecuteUpdate => "SparqlDatabase::execute_update",
+            Entry::HandleUpdate => "SparqlDatabase::handle_update",
+            Entry::HttpSparqlUpdate => "http_post_sparql_update",
+            Entry::HttpFormUpdate => "http_form_update",
+            Entry::LegacyVolcano => "legacy_volcano",
+        }
+    }
+    fn from_name(n: &str) -> Option<Entry> {
+        [Entry::ExecuteUpdate, Entry::HandleUpdate, Entry::HttpSparqlUpdate, Entry::HttpFormUpdate, Entry::LegacyVolcano].into_iter().find(|e| e.name() == n)
+    }
+}
+
+/// What the entry point said about the last request.
+#[derive(Debug)]
+enum Obs {
+    /// executed; counts where the entry point reports them
+    Accepted(Option<(usize, usize)>),
+    Refused(String),
+    /// the legacy adapter returns rows only: no statement about acceptance
+    NoVerdict,
+}
+
+fn percent_encode(text: &str) -> String {
+    let mut o = String::new();
+    for b in text.bytes() {
+        if b.is_ascii_alphanumeric() || matches!(b, b'-' | b'_' | b'.' | b'~') {
+            o.push(b as char);
+        } else {
+            o.push_str(&format!("%{:02X}", b));
+        }
+    }
+    o
+}
+
+/// "Update Successful (inserted 1, deleted 0)" | "Update Successful" | "Update Failed" | other
+fn read_handle_update(s: &str) -> Obs {
+    if let Some(rest) = s.strip_prefix("Update Successful") {
+        let nums: Vec<usize> = rest.split(|c: char| !c.is_ascii_digit()).filter(|x| !x.is_empty()).filter_map(|x| x.parse().ok()).collect();
+        if rest.contains("inserted") && rest.contains("deleted") && nums.len() == 2 {
+            return Obs::Accepted(Some((nums[0], nums[1])));
+        }
+        return Obs::Accepted(None);
+    }
+    Obs::Refused(s.to_string())
+}
+
+fn exec_last(db: &mut SparqlDatabase, text: &str, entry: Entry) -> Result<Obs, String> {
+    guarded(|| match entry {
+        Entry::ExecuteUpdate => match db.execute_update(text) {
+            Ok(sum) => Obs::Accepted(Some((sum.inserted_quads, sum.deleted_quads))),
+            Err(e) => Obs::Refused(e),
+        },
+        Entry::HandleUpdate => read_handle_update(&db.handle_update(text)),
+        // HTTP framing is fixed and well-formed, only the request text varies
+        Entry::HttpSparqlUpdate => read_handle_update(&db.handle_http_request(&format!("POST /sparql HTTP/1.1\r\nHost: x\r\nContent-Type: application/sparql-update\r\n\r\n{}", text))),
+        Entry::HttpFormUpdate => {
+            read_handle_update(&db.handle_http_request(&format!("POST /sparql HTTP/1.1\r\nHost: x\r\nContent-Type: application/x-www-form-urlencoded\r\n\r\nupdate={}", percent_encode(text))))
+        }
+        Entry::LegacyVolcano => {
+            let _ = execute_query_rayon_parallel2_volcano(text, db);
+            Obs::NoVerdict
+        }
+    })
+}
+
+pub struct PathOut {
+    pub real: Dataset,
+    pub model: Dataset,
+    /// last step executed with the reference's effect
+    pub accepted: bool,
+    /// reference dataset before the last step and the reference's effect of the last step
+    pub pre_model: Dataset,
+    pub effect: Option<Effect>,
+}
+
 /// Execute `path` (indexes into the alphabet) from initial dataset `init` on a fresh real
-/// database and on the model; verify the LAST step. Returns the reached (real, model) datasets.
-pub fn run_path(alpha: &[Req], init: &Dataset, path: &[usize]) -> Result<(Dataset, Dataset, bool), StepFail> {
+/// database and on the model; verify the LAST step, which is executed through `entry`.
+pub fn run_path_entry(alpha: &[Req], init: &Dataset, path: &[usize], entry: Entry) -> Result<PathOut, StepFail> {
     let mut db: SparqlDatabase = build_db(init);
     let mut model = init.clone();
+    let mut pre_model = init.clone();
     let mut accepted_last = false;
+    let mut effect = None;
     for (k, &oi) in path.iter().enumerate() {
         let last = k + 1 == path.len();
         let req = &alpha[oi];
         let text = req.text();
         let before = if last { Some(extract(&db)) } else { None };
-        let res = guarded(|| db.execute_update(&text));
-        let res = match res {
+        let this_entry = if last { entry } else { Entry::ExecuteUpdate };
+        let res = match exec_last(&mut db, &text, this_entry) {
             Ok(r) => r,
-            Err(p) => return Err(StepFail { symptom: "panic", detail: format!("execute_update panicked on {:?}: {}", text, p) }),
+            Err(p) => return Err(StepFail { symptom: "panic", detail: format!("{} panicked on {:?}: {}", this_entry.name(), text, p) }),
         };
-        let model_res: Result<(Dataset, Effect), String> = match req {
-            Req::Ast(u) => update::apply(&model, u, k + 1),
-            Req::Rejected(l, _) => Err(format!("malformed request ({})", l)),
+        let model_res: Result<(Dataset, Effect), String> = match req.model() {
+            Some(u) => update::apply(&model, u, k + 1),
+            None => Err(format!("malformed request ({})", req.label())),
         };
         if last {
+            pre_model = model.clone();
             let after = extract(&db);
             match (&res, &model_res) {
-                (Ok(sum), Ok((m2, eff))) => {
+                (Obs::Accepted(_) | Obs::NoVerdict, Ok((m2, eff))) => {
                     if !equal_quads_up_to_bnodes(&after, m2) {
                         return Err(StepFail { symptom: "dataset_differs", detail: format!("after {:?}\n  real : {:?}\n  model: {:?}", text, after.quads(), m2.quads()) });
                     }
-                    if sum.inserted_quads != eff.inserted || sum.deleted_quads != eff.deleted {
-                        return Err(StepFail {
-                            symptom: "summary_counts_differ",
-                            detail: format!("after {:?}: reported inserted={} deleted={}, actual change inserted={} deleted={}", text, sum.inserted_quads, sum.deleted_quads, eff.inserted, eff.deleted),
-                        });
+                    if let Obs::Accepted(Some((ins, del))) = &res {
+                        if *ins != eff.inserted || *del != eff.deleted {
+                            return Err(StepFail {
+                                symptom: "summary_counts_differ",
+                                detail: format!("after {:?}: reported inserted={} deleted={}, actual change inserted={} deleted={}", text, ins, del, eff.inserted, eff.deleted),
+                            });
+                        }
                     }
                     // catalog bounds
                     for (g, ts) in &m2.named {
@@ -141,34 +241,48 @@ pub fn run_path(alpha: &[Req], init: &Dataset, path: &[usize]) -> Result<(Datase
                         }
                     }
                     accepted_last = true;
+                    effect = Some(eff.clone());
                 }
-                (Err(_), Err(_)) => {
+                (Obs::Refused(_), Err(_)) => {
                     let b = before.as_ref().unwrap();
                     if &after != b {
                         return Err(StepFail { symptom: "rejected_update_changed_dataset", detail: format!("{:?} was refused but the dataset changed\n  before: {:?}\n  after : {:?}", text, b, after) });
                     }
                 }
-                (Ok(sum), Err(why)) => {
-                    // Requests that the SPARQL grammar itself allows and that have no effect (the empty
-                    // request = zero operations; a template whose written subject is a literal = illegal
-                    // triple skipped; a SELECT, which C17 only requires to leave the data alone) may be
-                    // refused (as Kolibrie does) or accepted as a no-op: the statement fixes neither.
-                    let tolerated = matches!(req, Req::Rejected(l, _) if matches!(*l, "empty" | "literal_subject_in_template" | "select_at_update_endpoint"));
-                    if tolerated && sum.inserted_quads == 0 && sum.deleted_quads == 0 && Some(&after) == before.as_ref() {
-                        continue;
+                (Obs::Accepted(sum), Err(why)) => {
+                    if entry != Entry::ExecuteUpdate {
+                        // the adapters accept the legacy INSERT { } / DELETE { } aliases by design: what a
+                        // request the reference rejects does there is not judged
+                    } else {
+                        // Requests that the SPARQL grammar itself allows and that have no effect (the empty
+                        // request = zero operations; a template whose written subject is a literal = illegal
+                        // triple skipped; a SELECT, which C17 only requires to leave the data alone) may be
+                        // refused (as Kolibrie does) or accepted as a no-op: the statement fixes neither.
+                        let tolerated = matches!(req, Req::Rejected(l, _) if matches!(*l, "empty" | "literal_subject_in_template" | "select_at_update_endpoint"));
+                        let noop = matches!(sum, Some((0, 0)) | None) && Some(&after) == before.as_ref();
+                        if !(tolerated && noop) {
+                            return Err(StepFail { symptom: "invalid_update_accepted", detail: format!("{:?} must be rejected ({}), but was executed: {:?}", text, why, sum) });
+                        }
                     }
-                    return Err(StepFail { symptom: "invalid_update_accepted", detail: format!("{:?} must be rejected ({}), but was executed: {:?}", text, why, sum) });
                 }
-                (Err(e), Ok(_)) => {
+                (Obs::NoVerdict, Err(_)) => {}
+                (Obs::Refused(e), Ok(_)) => {
                     return Err(StepFail { symptom: "valid_update_rejected", detail: format!("{:?} is a valid update but was refused: {}", text, e) });
                 }
             }
+        } else if let (Obs::Refused(e), Ok(_)) = (&res, &model_res) {
+            // cannot happen on a validated prefix; keep the model honest if it does
+            return Err(StepFail { symptom: "valid_update_rejected", detail: format!("prefix step {:?} refused: {}", text, e) });
         }
         if let Ok((m2, _)) = model_res {
             model = m2;
         }
     }
-    Ok((extract(&db), model, accepted_last))
+    Ok(PathOut { real: extract(&db), model, accepted: accepted_last, pre_model, effect })
+}
+
+pub fn run_path(alpha: &[Req], init: &Dataset, path: &[usize]) -> Result<(Dataset, Dataset, bool), StepFail> {
+    run_path_entry(alpha, init, path, Entry::ExecuteUpdate).map(|o| (o.real, o.model, o.accepted))
 }
 
 fn equal_quads_up_to_bnodes(real: &Dataset, model: &Dataset) -> bool {
@@ -187,19 +301,81 @@ fn equal_quads_up_to_bnodes(real: &Dataset, model: &Dataset) -> bool {
     equal_up_to_bnodes(&strip(real), &strip(model))
 }
 
-fn case_json(init: usize, alpha: &[Req], path: &[usize]) -> Value {
-    json!({"initial": init, "path": path, "requests": path.iter().map(|i| alpha[*i].text()).collect::<Vec<_>>()})
+fn case_json(init: usize, alpha: &[Req], path: &[usize], entry: Entry) -> Value {
+    let mut v = json!({"initial": init, "path": path, "requests": path.iter().map(|i| alpha[*i].text()).collect::<Vec<_>>()});
+    if entry != Entry::ExecuteUpdate {
+        v["entry"] = json!(entry.name());
+    }
+    v
 }
 
-fn record_fail(out: &mut ShardOut, alpha: &[Req], inits: &[Dataset], init: usize, path: &[usize], f: StepFail) {
+fn path_tags(alpha: &[Req], init: usize, path: &[usize], entry: Entry) -> Vec<String> {
+    let li = *path.last().unwrap();
+    let mut tags = vec![format!("op={}", alpha[li].label()), format!("initial={}", init)];
+    if li >= ugen::CORE_LEN {
+        tags.push(format!("extension_symbol={}", li - ugen::CORE_LEN));
+    }
+    if entry != Entry::ExecuteUpdate {
+        tags.push(format!("entry={}", entry.name()));
+    }
+    tags
+}
+
+fn record_fail(out: &mut ShardOut, alpha: &[Req], inits: &[Dataset], init: usize, path: &[usize], entry: Entry, f: StepFail) {
     // determinism before verdict
-    match run_path(alpha, &inits[init], path) {
+    match run_path_entry(alpha, &inits[init], path, entry) {
         Err(f2) if f2.symptom == f.symptom => {
-            let last = &alpha[*path.last().unwrap()];
-            let tags = vec![format!("op={}", last.label()), format!("initial={}", init)];
-            out.fail(case_json(init, alpha, path), f.symptom, f.detail, tags);
+            out.fail(case_json(init, alpha, path, entry), f.symptom, f.detail, path_tags(alpha, init, path, entry));
         }
-        other => out.machinery_errors.push(format!("non-deterministic verdict on path {:?}: first {:?}, then {:?}", path, f.symptom, other.err().map(|e| e.symptom))),
+        other => out.machinery_errors.push(format!("non-deterministic verdict on path {:?} via {}: first {:?}, then {:?}", path, entry.name(), f.symptom, other.err().map(|e| e.symptom))),
+    }
+}
+
+fn is_ext(oi: usize) -> bool {
+    oi >= ugen::CORE_LEN
+}
+
+/// vacuity counters for the extension symbols: did the transition really cross the branch the
+/// symbol was added for? (computed on the reference side from the pre-state of the last step)
+fn note_extension(out: &mut ShardOut, alpha: &[Req], path: &[usize], o: &PathOut) {
+    let li = *path.last().unwrap();
+    if !is_ext(li) {
+        return;
+    }
+    let k = li - ugen::CORE_LEN;
+    out.count("ext_transitions", 1);
+    let eff = o.effect.clone().unwrap_or_default();
+    if eff.inserted + eff.deleted > 0 {
+        out.count(&format!("ext{:02}_{}_with_effect", k, alpha[li].label().replace(':', "_")), 1);
+    }
+    let objs: Vec<&String> = o.pre_model.default.iter().filter(|t| t.1 == P).map(|t| &t.2).collect();
+    match k {
+        0 | 1 => {
+            let what = if k == 0 { "varpred" } else { "graphvar" };
+            if objs.iter().any(|v| v.starts_with("_:")) {
+                out.count(&format!("ext_{}_bound_to_blank_node_skipped", what), 1);
+            }
+            if objs.iter().any(|v| !v.starts_with("_:") && !update::is_iri_like(v)) {
+                out.count(&format!("ext_{}_bound_to_literal_skipped", what), 1);
+            }
+            if objs.iter().any(|v| update::is_iri_like(v)) {
+                out.count(&format!("ext_{}_bound_to_iri", what), 1);
+            }
+            if k == 1 && o.model.named.len() > o.pre_model.named.len() {
+                out.count("ext_graphvar_created_new_graph", 1);
+            }
+        }
+        2 => {
+            if !objs.is_empty() {
+                out.count("ext_unbound_templates_with_solutions", 1);
+            }
+        }
+        4 | 5 | 6 => {
+            if eff.deleted >= 2 {
+                out.count("ext_delete_where_shorthand_deleted_2plus", 1);
+            }
+        }
+        _ => {}
     }
 }
 
@@ -208,7 +384,22 @@ fn run(ctx: &Ctx) -> ShardOut {
     let alpha = ugen::alphabet();
     let inits = initial_datasets();
     let max_depth = if ctx.thorough() { 6 } else { 4 };
+    let ext_depth = if ctx.thorough() { 4 } else { 3 };
+    let alt_depth = if ctx.thorough() { 3 } else { 2 };
     out.count("max_alphabet_size", alpha.len() as u64);
+    out.count("max_core_alphabet_size", ugen::CORE_LEN as u64);
+    // an extension symbol as the LAST step of an otherwise core-only path may come later
+    let ext_last_depth = if ctx.thorough() { 5 } else { 4 };
+    let allowed = |path: &[usize], oi: usize| -> bool {
+        let len = path.len() + 1;
+        if path.iter().any(|x| is_ext(*x)) {
+            len <= ext_depth
+        } else if is_ext(oi) {
+            len <= ext_last_depth
+        } else {
+            len <= max_depth
+        }
+    };
     let mut subtree = 0u64;
     'all: for init in 0..inits.len() {
         for first in 0..alpha.len() {
@@ -216,29 +407,31 @@ fn run(ctx: &Ctx) -> ShardOut {
             if !ctx.mine(subtree) {
                 continue;
             }
-            // BFS below (init, first)
-            let mut seen: HashSet<u64> = HashSet::new();
+            // BFS below (init, first); value = reached by a core-only path
+            let mut seen: HashMap<u64, bool> = HashMap::new();
             let mut frontier: VecDeque<Vec<usize>> = VecDeque::new();
             let path0 = vec![first];
             out.transitions += 1;
             out.evaluations += 1;
             out.traces += 1;
-            match run_path(&alpha, &inits[init], &path0) {
-                Ok((real, model, _)) => {
-                    seen.insert(hash64(&(canon(&real), canon(&model))));
-                    note_state(&mut out, &real, &alpha, init, &path0);
+            match run_path_entry(&alpha, &inits[init], &path0, Entry::ExecuteUpdate) {
+                Ok(o) => {
+                    note_extension(&mut out, &alpha, &path0, &o);
+                    seen.insert(hash64(&(canon(&o.real), canon(&o.model))), !is_ext(first));
+                    note_state(&mut out, &o.real, &alpha, init, &path0);
+                    alt_entries(&mut out, &alpha, &inits, init, &path0);
                     frontier.push_back(path0);
                 }
                 Err(f) => {
-                    record_fail(&mut out, &alpha, &inits, init, &path0, f);
+                    record_fail(&mut out, &alpha, &inits, init, &path0, Entry::ExecuteUpdate, f);
                     continue;
                 }
             }
             while let Some(path) = frontier.pop_front() {
-                if path.len() >= max_depth {
-                    continue;
-                }
                 for oi in 0..alpha.len() {
+                    if !allowed(&path, oi) {
+                        continue;
+                    }
                     if ctx.expired() {
                         out.capped.push(format!("wall-clock cap hit in subtree (initial {}, first op {}) at depth {}", init, first, path.len()));
                         break 'all;
@@ -248,25 +441,211 @@ fn run(ctx: &Ctx) -> ShardOut {
                     out.transitions += 1;
                     out.evaluations += 1;
                     out.traces += 1;
-                    match run_path(&alpha, &inits[init], &p2) {
-                        Ok((real, model, accepted)) => {
-                            out.count(if accepted { "accepted_steps" } else { "refused_steps" }, 1);
-                            let key = hash64(&(canon(&real), canon(&model)));
-                            if seen.insert(key) {
-                                note_state(&mut out, &real, &alpha, init, &p2);
+                    match run_path_entry(&alpha, &inits[init], &p2, Entry::ExecuteUpdate) {
+                        Ok(o) => {
+                            out.count(if o.accepted { "accepted_steps" } else { "refused_steps" }, 1);
+                            note_extension(&mut out, &alpha, &p2, &o);
+                            let core_only = !p2.iter().any(|x| is_ext(*x));
+                            let key = hash64(&(canon(&o.real), canon(&o.model)));
+                            let fresh = match seen.get(&key) {
+                                None => true,
+                                // first seen below a depth-limited extension path: expand it again
+                                Some(false) if core_only => {
+                                    out.count("states_re_expanded_core_only", 1);
+                                    true
+                                }
+                                Some(_) => false,
+                            };
+                            if fresh {
+                                if seen.insert(key, core_only).is_none() {
+                                    note_state(&mut out, &o.real, &alpha, init, &p2);
+                                }
                                 out.max_depth = out.max_depth.max(p2.len() as u64);
+                                if p2.len() <= alt_depth {
+                                    alt_entries(&mut out, &alpha, &inits, init, &p2);
+                                }
                                 frontier.push_back(p2);
                             } else {
                                 out.count("dedup_hits", 1);
+                                if p2.len() <= alt_depth {
+                                    alt_entries(&mut out, &alpha, &inits, init, &p2);
+                                }
                             }
                         }
-                        Err(f) => record_fail(&mut out, &alpha, &inits, init, &p2, f),
+                        Err(f) => record_fail(&mut out, &alpha, &inits, init, &p2, Entry::ExecuteUpdate, f),
                     }
                 }
             }
         }
     }
+    // family bnode_collision
+    let mut idx = subtree;
+    let mut aimed = true;
+    'c: for case in collision_cases(&alpha, inits.len()) {
+        idx += 1;
+        if !ctx.mine(idx) {
+            continue;
+        }
+        if ctx.expired() {
+            out.capped.push("wall-clock cap hit in the bnode_collision family".into());
+            break 'c;
+        }
+        out.evaluations += 1;
+        out.count("bnode_collision_cases", 1);
+        match run_collision(&alpha, &inits, &case) {
+            Ok(None) => {
+                aimed = false;
+                break 'c;
+            }
+            Ok(Some(c)) => {
+                if c.crossed {
+                    out.count("bnode_collision_cases_crossing_the_retry_loop", 1);
+                    out.nontrivial(&("bnode_collision", case.init, case.op, case.mask, case.reps));
+                }
+                out.max("max_bnode_collision_retries_in_one_case", c.retries);
+            }
+            Err(f) => record_collision_fail(&mut out, &alpha, &inits, &case, f),
+        }
+    }
+    if !aimed {
+        out.capped.push("bnode_collision family not run: the probe request did not reveal an allocation counter (label format changed?)".into());
+    }
     out
+}
+
+/// Re-execute the last request of a validated path through the other entry points.
+fn alt_entries(out: &mut ShardOut, alpha: &[Req], inits: &[Dataset], init: usize, path: &[usize]) {
+    for entry in ALT_ENTRIES {
+        out.evaluations += 1;
+        out.count("alt_entry_executions", 1);
+        match run_path_entry(alpha, &inits[init], path, entry) {
+            Ok(o) => {
+                if o.accepted {
+                    out.count("alt_entry_accepted_steps_compared", 1);
+                }
+            }
+            Err(f) => record_fail(out, alpha, inits, init, path, entry, f),
+        }
+    }
+}
+
+// ---------------------------------------------------------------------------------------
+// family bnode_collision
+// ---------------------------------------------------------------------------------------
+
+const COLLISION_OFFSETS: u32 = 5;
+const UPDATE_BNODE_PREFIX: &str = "_:kolibrie-update-";
+
+#[derive(Clone, Debug)]
+struct CollisionCase {
+    init: usize,
+    op: usize,
+    mask: u32,
+    reps: usize,
+}
+
+/// blank-node labels a request allocates (INSERT DATA / INSERT template), empty if none
+fn insert_bnode_labels(u: &Update) -> Vec<String> {
+    let quads = match u {
+        Update::InsertData(q) => q.clone(),
+        Update::Modify { insert: Some(i), .. } => i.clone(),
+        _ => Vec::new(),
+    };
+    let mut labels = BTreeSet::new();
+    for q in &quads {
+        for t in [&q.t.s, &q.t.p, &q.t.o] {
+            if let T::Bnode(l) = t {
+                labels.insert(l.clone());
+            }
+        }
+    }
+    labels.into_iter().collect()
+}
+
+fn collision_cases(alpha: &[Req], ninits: usize) -> Vec<CollisionCase> {
+    let mut v = Vec::new();
+    for init in 0..ninits {
+        for (op, req) in alpha.iter().enumerate() {
+            let Some(u) = req.model() else { continue };
+            // only requests the reference executes
+            if insert_bnode_labels(u).is_empty() || update::apply(&Dataset::default(), u, 1).is_err() {
+                continue;
+            }
+            for mask in 1..(1u32 << COLLISION_OFFSETS) {
+                for reps in [1usize, 2] {
+                    v.push(CollisionCase { init, op, mask, reps });
+                }
+            }
+        }
+    }
+    v
+}
+
+fn update_bnode_number(term: &str) -> Option<u64> {
+    let rest = term.strip_prefix(UPDATE_BNODE_PREFIX)?;
+    let digits: String = rest.chars().take_while(|c| c.is_ascii_digit()).collect();
+    digits.parse().ok()
+}
+
+/// Value of the process-global allocation counter = number carried by the node a probe request
+/// just allocated on a scratch database.
+fn probe_counter() -> Option<u64> {
+    let mut db = SparqlDatabase::new();
+    let text = format!("INSERT {{ _:probe <{}> <{}> }} WHERE {{ }}", P, A);
+    guarded(|| db.execute_update(&text)).ok()?.ok()?;
+    let ds = extract(&db);
+    let n = ds.quads().into_iter().find_map(|q| if q.0.ends_with("-probe") { update_bnode_number(&q.0) } else { None });
+    n
+}
+
+struct CollisionOut {
+    crossed: bool,
+    retries: u64,
+}
+
+/// Ok(None) = the probe failed (family cannot be aimed).
+fn run_collision(alpha: &[Req], inits: &[Dataset], case: &CollisionCase) -> Result<Option<CollisionOut>, StepFail> {
+    let Some(n) = probe_counter() else { return Ok(None) };
+    let labels = alpha[case.op].model().map(insert_bnode_labels).unwrap_or_default();
+    let mut init = inits[case.init].clone();
+    let mut preloaded: BTreeSet<u64> = BTreeSet::new();
+    for j in 1..=COLLISION_OFFSETS as u64 {
+        if case.mask & (1 << (j - 1)) == 0 {
+            continue;
+        }
+        preloaded.insert(n + j);
+        for l in &labels {
+            let node = format!("{}{}-{}", UPDATE_BNODE_PREFIX, n + j, l);
+            // odd offsets: a subject the WHERE patterns over p can match; even offsets: an inert object
+            if j % 2 == 1 {
+                init.default.insert((node, P.to_string(), C.to_string()));
+            } else {
+                init.default.insert((A.to_string(), Q.to_string(), node));
+            }
+        }
+    }
+    let path: Vec<usize> = vec![case.op; case.reps];
+    let o = run_path_entry(alpha, &init, &path, Entry::ExecuteUpdate)?;
+    // vacuity: did an allocation have to step over a pre-loaded label?
+    let old: BTreeSet<String> = init.quads().into_iter().flat_map(|q| [q.0, q.2]).collect();
+    let new_numbers: Vec<u64> = o.real.quads().into_iter().flat_map(|q| [q.0, q.2]).filter(|t| !old.contains(t)).filter_map(|t| update_bnode_number(&t)).collect();
+    let top = new_numbers.iter().copied().max().unwrap_or(0);
+    let retries = preloaded.iter().filter(|p| **p < top).count() as u64;
+    Ok(Some(CollisionOut { crossed: retries > 0, retries }))
+}
+
+fn collision_json(alpha: &[Req], c: &CollisionCase) -> Value {
+    json!({"family": "bnode_collision", "initial": c.init, "op": c.op, "mask": c.mask, "reps": c.reps, "request": alpha[c.op].text()})
+}
+
+fn record_collision_fail(out: &mut ShardOut, alpha: &[Req], inits: &[Dataset], case: &CollisionCase, f: StepFail) {
+    match run_collision(alpha, inits, case) {
+        Err(f2) if f2.symptom == f.symptom => {
+            let tags = vec!["family=bnode_collision".to_string(), format!("op={}", alpha[case.op].label()), format!("initial={}", case.init), format!("reps={}", case.reps)];
+            out.fail(collision_json(alpha, case), f.symptom, f.detail, tags);
+        }
+        other => out.machinery_errors.push(format!("non-deterministic verdict on bnode_collision case {:?}: first {:?}, then {:?}", case, f.symptom, other.err().map(|e| e.symptom))),
+    }
 }
 
 fn note_state(out: &mut ShardOut, real: &Dataset, alpha: &[Req], init: usize, path: &[usize]) {
@@ -279,8 +658,14 @@ fn note_state(out: &mut ShardOut, real: &Dataset, alpha: &[Req], init: usize, pa
     if real.quads().iter().any(|q| q.0.starts_with("_:") || q.2.starts_with("_:")) {
         out.count("states_with_blank_nodes", 1);
     }
+    if real.quads().iter().any(|q| q.1 != P && q.1 != Q) {
+        out.count("states_with_template_made_predicate", 1);
+    }
+    if real.named.keys().any(|g| g != G1 && g != G2) {
+        out.count("states_with_template_made_graph", 1);
+    }
     if out.states % 400 == 3 {
-        out.sample(case_json(init, alpha, path));
+        out.sample(case_json(init, alpha, path, Entry::ExecuteUpdate));
     }
 }
 
@@ -289,14 +674,29 @@ fn replay(_ctx: &Ctx, case: &Value) -> ShardOut {
     let alpha = ugen::alphabet();
     let inits = initial_datasets();
     let init = case["initial"].as_u64().unwrap_or(0) as usize;
+    if case["family"].as_str() == Some("bnode_collision") {
+        let c = CollisionCase { init, op: case["op"].as_u64().unwrap_or(0) as usize, mask: case["mask"].as_u64().unwrap_or(1) as u32, reps: case["reps"].as_u64().unwrap_or(1) as usize };
+        if c.init >= inits.len() || c.op >= alpha.len() || c.reps == 0 || c.reps > 4 {
+            out.machinery_errors.push("replay: bad case".into());
+            return out;
+        }
+        out.evaluations = 1;
+        match run_collision(&alpha, &inits, &c) {
+            Ok(None) => out.machinery_errors.push("replay: the probe request did not reveal an allocation counter".into()),
+            Ok(Some(_)) => {}
+            Err(f) => record_collision_fail(&mut out, &alpha, &inits, &c, f),
+        }
+        return out;
+    }
     let path: Vec<usize> = case["path"].as_array().map(|a| a.iter().filter_map(|x| x.as_u64().map(|y| y as usize)).collect()).unwrap_or_default();
+    let entry = case["entry"].as_str().and_then(Entry::from_name).unwrap_or(Entry::ExecuteUpdate);
     if init >= inits.len() || path.is_empty() || path.iter().any(|i| *i >= alpha.len()) {
         out.machinery_errors.push("replay: bad case".into());
         return out;
     }
     out.evaluations = 1;
-    if let Err(f) = run_path(&alpha, &inits[init], &path) {
-        record_fail(&mut out, &alpha, &inits, init, &path, f);
+    if let Err(f) = run_path_entry(&alpha, &inits[init], &path, entry) {
+        record_fail(&mut out, &alpha, &inits, init, &path, entry, f);
     }
     out
 }
